@@ -675,7 +675,27 @@ def d_fromu32(F, s):
     return None
 
 
-GENERIC_RULES = [d_lensum, d_counter, d_subguard, d_fullrange, d_slice, d_peek, d_isvar, d_len1, d_split, d_external, d_rebuild, d_fromu32]
+def d_windows(F, s):
+    """`slice.windows(n)` / `chunks(n)` with a literal n > 0 cannot panic; `w[i]` with a literal i < n inside `for w in slice.windows(n)` is in bounds"""
+    n = s.node
+    if n.get("k") == "Call" and (n.get("fn") or "").endswith(("<impl [T]>::windows", "<impl [T]>::chunks", "<impl [T]>::chunks_exact")) and len(n["args"]) == 2:
+        if lit(n["args"][1]) and lit(n["args"][1])[0] == "i" and lit(n["args"][1])[1] > 0:
+            return ("D-WINDOWS", "window size is the literal %d" % lit(n["args"][1])[1])
+        return None
+    if s.kind == "index" and n.get("k") == "Call" and len(n.get("args") or []) == 2 and lit(n["args"][1]) and lit(n["args"][1])[0] == "i":
+        wid = q.var_id(n["args"][0])
+        idx = lit(n["args"][1])[1]
+        for e in q.context(s.path, n):
+            if e[0] == "for" and strip_ref(e[1]).get("k") == "Bind" and strip_ref(e[1]).get("id") == wid:
+                it = peel(e[2])
+                while call_is(it, "IntoIterator::into_iter") and len(it["args"]) == 1:
+                    it = peel(it["args"][0])
+                if call_is(it, "<impl [T]>::windows") and len(it["args"]) == 2 and lit(it["args"][1]) and lit(it["args"][1])[0] == "i" and 0 <= idx < lit(it["args"][1])[1]:
+                    return ("D-WINDOWS", "index %d into a window of exactly %d elements" % (idx, lit(it["args"][1])[1]))
+    return None
+
+
+GENERIC_RULES = [d_windows, d_lensum, d_counter, d_subguard, d_fullrange, d_slice, d_peek, d_isvar, d_len1, d_split, d_external, d_rebuild, d_fromu32]
 
 
 def discharge(F, s, extra_rules=()):
